@@ -609,6 +609,18 @@ def f5(prog: Program, chk: Check) -> None:
             f"memo idiom(s)", len(units) >= 10, "" if len(units) >= 10 else "the class shrank")
 
 
+def f6(prog: Program, chk: Check) -> None:
+    chk.rule("F6", "the per-system callables of a mean-field computation (influence functions, propagators, controls) each belong to their own system: no closure kept beyond a loop iteration reads a variable the loop rebinds (late binding would hand every system the objects of the last one) (a default argument, a factory function or functools.partial binds "
+             "the value when the closure is made; a closure consumed within the iteration is fine). "
+             "Expected count on a correct tree is zero: a built-in example with two defective and "
+             "two accepted closures is judged on every run", floor=1)
+    from rules import latebinding
+    latebinding.self_check("F6")
+    n = latebinding.late_binding(prog, chk, "F6", modules={'backends.tempo_backend', 'system', 'system_dynamics', 'tempo'})
+    chk.add("F6", prog.module("tempo"), f"{n} closures created in loops / comprehensions examined; "
+            f"built-in example judged as expected", True, "")
+
+
 def run(prog: Program, chk: Check) -> None:
     chk.explanation = (
         "Decides the time/state alignment of the two Runge-Kutta stages at every field_eom call "
@@ -627,3 +639,4 @@ def run(prog: Program, chk: Check) -> None:
     chk.call(f3, prog, chk)
     chk.call(f4, prog, chk)
     chk.call(f5, prog, chk)
+    chk.call(f6, prog, chk)
